@@ -137,6 +137,19 @@ Theorem C08_history : forall tree find seen fxc (s : state tree), reach tree fin
 Proof. exact history. Qed.
 Print Assumptions C08_history.
 
+(* a project that stops searching: a run that cached nothing saves no .bfg_find_cache (the old one is removed), and
+   without that file every later lazy regeneration - whatever was edited since, in particular a regeneration input the
+   old cache never listed - runs the scripts and gives the fresh result *)
+Theorem C08_no_cached_call_no_cache_file : forall tree find seen (w : world tree),
+  forallb (fun c => negb (c_cached c)) (cf_calls (w_conf w)) = true -> save (fresh tree find seen true w) = None.
+Proof. exact no_cached_call_no_cache_file. Qed.
+Print Assumptions C08_no_cached_call_no_cache_file.
+
+Theorem C08_nothing_cached_never_skips : forall tree find seen fxc (r : result) (w : world tree),
+  r_cache r = [] -> lazy tree find seen true fxc w (save r) = Ran (fresh tree find seen true w).
+Proof. exact nothing_cached_never_skips. Qed.
+Print Assumptions C08_nothing_cached_never_skips.
+
 (* non-vacuity: a world in which the pre-filled run really happens and serves a changed result with an extra file *)
 Example C08_noskip_nonvacuous : forall fxc,
   exists r, coherent bool (Wit.mk true Wit.mtA []) Wit.svA /\
